@@ -26,10 +26,13 @@ fn arg(args: &[String], name: &str) -> Option<String> {
     args.iter().position(|a| a == name).and_then(|i| args.get(i + 1).cloned())
 }
 
+fn args_thorough() -> bool { std::env::args().any(|a| a == "thorough") }
+
 fn main() {
     // panics inside the library are caught per call; keep stderr quiet
     std::panic::set_hook(Box::new(|_| {}));
     fatal::install();
+    fatal::watchdog(std::env::var("RSH_WATCHDOG_SECS").ok().and_then(|v| v.parse().ok()).unwrap_or(if args_thorough() { 2400 } else { 600 }));
     let args: Vec<String> = std::env::args().collect();
     if args.len() < 2 {
         eprintln!("usage: rsharness <property|replay> --tier T --seed N --model PATH --out FILE");
